@@ -56,6 +56,7 @@ for pid in sorted(os.listdir(root)):
                 "rules": det.get("rules", []),
                 "first_violations": det.get("first_violations", []),
                 "note": notes.get(key, ""),
+                "blind": (None if not notes.get(key) else (True if notes.get(key, "").startswith("blind: caught") else (False if ("BLIND MISS" in notes.get(key, "") or "blind miss" in notes.get(key, "") or "missed blind" in notes.get(key, "")) else None))),
             },
         }
         json.dump(meta_out, open(os.path.join(dest, "meta.json"), "w"), indent=1, ensure_ascii=False)
